@@ -192,6 +192,24 @@ def vspec_for(draw, spec, t, hard=True, finite=False, depth=0, omit_defaults=Tru
         cn = draw(st.sampled_from(cands))
         cc = by[cn]
         kw = []
+        if cc.get('index'):
+            attr, keyp, kind, xn = cc['index']
+            n = draw(st.integers(0, 3))
+            keys = draw(st.lists(st.sampled_from(['p', 'q', 'r', 'k1', 'some_key', 'x y']),
+                                 min_size=n, max_size=n, unique=True))
+            items = []
+            for key in keys:
+                xv = draw(rec(['ref', xn]))
+                if xv is None:
+                    continue
+                xv = ['obj', xv[1], [[a, (['str', key] if a == keyp else b)]
+                                     for a, b in xv[2]], xv[3]]
+                items.append(xv if kind == 'list' else [['str', key], xv])
+            kw.append([attr, ['list' if kind == 'list' else 'dict', items]])
+            for p in cc.get('params', [])[1:]:
+                if draw(st.booleans()):
+                    kw.append([p['name'], draw(rec(p.get('type')))])
+            return ['obj', cn, kw, None]
         for p in cc.get('params', []):
             if 'default' in p and omit_defaults and draw(st.booleans()):
                 continue
@@ -258,6 +276,22 @@ def project(v, spec=None):
     if k == 'strlike':
         return str_tree(v[2])
     if k == 'obj':
+        cc = classes_by_name(spec).get(v[1], {}) if spec else {}
+        if cc.get('index'):
+            attr, keyp, kind, xn = cc['index']
+            pairs = []
+            for n, x in v[2]:
+                if n != attr:
+                    pairs.append([T.S(n), project(x, spec)])
+                    continue
+                inner = []
+                for it in x[1]:
+                    xv = it if kind == 'list' else it[1]
+                    key = [b for a, b in xv[2] if a == keyp][0]
+                    rest = ['obj', xv[1], [[a, b] for a, b in xv[2] if a != keyp], xv[3]]
+                    inner.append([project(key, spec), project(rest, spec)])
+                pairs.append([T.S(n), ['m', inner, None]])
+            return ['m', pairs, None]
         pairs = [[T.S(n), project(x, spec)] for n, x in v[2]]
         for a, b in (v[3] or []):
             pairs.append([str_tree(a), project(b, spec)])
@@ -507,6 +541,31 @@ def models(draw, feats=(), max_classes=5, doc_type=None):
             add_hooks(draw, c, feats)
         classes.append(c)
         objs.append(name)
+    if 'seasoned' in feats and draw(st.integers(0, 2)) == 0:
+        cands = []
+        for c in classes:
+            if c.get('kind', 'obj') == 'obj' and not c.get('abstract') and \
+                    c.get('reg', True) and not c.get('recognize'):
+                for p in c['params']:
+                    if p.get('type') == 'str' and 'default' not in p:
+                        cands.append((c['name'], p['name']))
+        if cands:
+            xn, pn = draw(st.sampled_from(cands))
+            kind = draw(st.sampled_from(['dict', 'list']))
+            sc = {'name': 'S', 'kind': 'obj', 'bases': [], 'params': [
+                {'name': 'items', 'type': (['dict', 'str', ['ref', xn]]
+                                           if kind == 'dict' else ['list', ['ref', xn]])}],
+                  'index': ['items', pn, kind, xn]}
+            if kind == 'dict':
+                sc['savorize'] = [['map_to_index', 'items', pn, None]]
+                sc['sweeten'] = [['index_to_map', 'items', pn, None]]
+            else:
+                sc['savorize'] = [['map_to_seq', 'items', pn, None]]
+                sc['sweeten'] = [['seq_to_map', 'items', pn, None]]
+            if draw(st.booleans()):
+                sc['params'].append({'name': 'note', 'type': 'any', 'default': ['none']})
+            classes.append(sc)
+            objs.append('S')
     if 'trap' in feats:
         classes.append({'name': 'Trap', 'kind': 'obj', 'bases': [], 'params': [
             {'name': 'a', 'type': 'int', 'default': ['int', 0]}]})
@@ -612,7 +671,7 @@ def mutate(draw, spec, t, n=None, tags=False, kinds=None):
             opts += ['add_item', 'drop_item']
         if sub[0] == 's':
             opts += ['replace_scalar', 'requote']
-        if tags:
+        if tags or (kinds and 'tag' in kinds):
             opts += ['tag', 'tag', 'tag']
         if kinds:
             opts = [o for o in opts if o in kinds] or ['replace_scalar']
